@@ -87,6 +87,27 @@ def plan(tier, prop):
     }
 
 
+class EnterFailed(Exception):
+    pass
+
+
+class Entering(object):
+    """``with Entering(cm):`` is ``with cm:`` except that an exception raised
+    by entering is told apart from one raised by the body or the exit."""
+
+    def __init__(self, cm):
+        self.cm = cm
+
+    def __enter__(self):
+        try:
+            return self.cm.__enter__()
+        except Exception as e:
+            raise EnterFailed(e)
+
+    def __exit__(self, *exc):
+        return self.cm.__exit__(*exc)
+
+
 class Boom(Exception):
     def __init__(self, catch_depth):
         Exception.__init__(self, "injected body failure")
@@ -902,7 +923,7 @@ class CtxEngine(object):
         raised = None
         exit_error = None
         try:
-            with cm:
+            with Entering(cm):
                 self.check_ctx(which, stack)
                 try:
                     self.run_items(which if which == "mc" else "mc", stack,
@@ -910,6 +931,21 @@ class CtxEngine(object):
                 finally:
                     self.sent = []
                     tx_before = len(self.all_tx)   # the exit starts here
+        except EnterFailed as ef:
+            e = ef.args[0]
+            if reuse is not None and is_app:
+                # a kept *application* block object that cannot be entered a
+                # second time: nothing promises that it can (plain context
+                # objects can, by their documented push/pop behaviour)
+                w.probe("kept_application_block_single_use")
+                w.ops[-1] += " -> cannot be entered again (%s), skipped" \
+                    % type(e).__name__
+                pool[:] = [q for q in pool if q[0] is not cm]
+                return
+            w.violate("CTX", "entering a context block raised %s: %s"
+                      % (type(e).__name__, e), kind="block-raised",
+                      exc=type(e).__name__)
+            return
         except Boom as b:
             raised = b
         except (c.scp.TimeoutError, c.scp.FatalReturnCodeError) as e:
